@@ -310,7 +310,8 @@ class ImplCoverage:
                         walk(c, prefix)
                         continue
                     lines = {l for _, _, l in c.co_lines() if l is not None and l != c.co_firstlineno}
-                    if lines:
+                    is_class_body = "__qualname__" in c.co_names and "__module__" in c.co_names
+                    if lines and not is_class_body:  # class bodies run at import time, before the measurement starts
                         out.setdefault(q, set()).update(lines)
                     walk(c, q)
         walk(top, "")
